@@ -270,3 +270,40 @@ func (g *G) genResource() resource {
 	}
 	return r
 }
+
+// genMerge304: a stored response of any status with explicit freshness that has run out, a validation
+// answered 304 whose fields REPLACE what made the stored response storable (Cache-Control without max-age,
+// must-understand over a status that is not understood, Expires gone only if the 304 says so), then requests
+// that would be served from the store if the merged response had been written. What the store may hold is
+// decided on the response as it would be stored, not on how it came about.
+func (g *G) genMerge304(id string) *History {
+	h := &History{ID: id, Prop: g.prop, Class: "merge-304", Backend: pick(g, "mem", "mem", "fs"), Logger: "discard"}
+	url := "http://a.test/m304"
+	st := pick(g, 200, 203, 204, 299, 301, 302, 303, 307, 308, 400, 403, 404, 410, 451, 500, 502, 599)
+	first := Hdr{{"Date", dateAt(0, 0)}, {"Cache-Control", pick(g, "max-age=0", "max-age=5", "public, max-age=1", "max-age=3")}, {"Etag", `"a"`}}
+	if st >= 300 && st < 400 {
+		first = append(first, [2]string{"Location", "/elsewhere"})
+	}
+	h.Ops = append(h.Ops, Op{Op: "req", AtNs: 0, Method: "GET", URL: url, Replies: []Reply{{Status: st, BodyFail: -1, Body: "m1", Hdr: first}}})
+	at := 20 * sec
+	cc := pick(g, "must-understand, max-age=3600", "must-understand, max-age=3600", "private", "no-cache", `private="x"`, "must-understand", "Must-Understand, Max-Age=60",
+		"max-age=3600", "public", "s-maxage=10", "no-store", "")
+	h304 := Hdr{{"Date", dateAt(at, 0)}, {"Etag", `"a"`}}
+	if cc != "" {
+		h304 = append(h304, [2]string{"Cache-Control", cc})
+	}
+	if g.chance(0.15) {
+		h304 = append(h304, [2]string{"Expires", dateAt(at, 600)})
+	}
+	h.Ops = append(h.Ops, Op{Op: "req", AtNs: at, Method: "GET", URL: url, Replies: []Reply{{Status: 304, BodyFail: -1, Hdr: h304},
+		{Status: 200, BodyFail: -1, Body: "m2", Hdr: Hdr{{"Date", dateAt(at, 0)}, {"Cache-Control", "max-age=60"}}}}})
+	for i := 0; i < 1+g.r.Intn(2); i++ {
+		at += pick(g, sec, 10*sec, 100*sec)
+		op := Op{Op: "req", AtNs: at, Method: "GET", URL: url, Replies: []Reply{{Status: 200, BodyFail: -1, Body: "m3", Hdr: Hdr{{"Date", dateAt(at, 0)}, {"Cache-Control", "max-age=60"}, {"Etag", `"b"`}}}}}
+		if g.chance(0.5) {
+			op.Hdr = Hdr{{"Cache-Control", pick(g, "only-if-cached, max-stale", "max-stale", "only-if-cached", "max-stale=1000")}}
+		}
+		h.Ops = append(h.Ops, op)
+	}
+	return h
+}
